@@ -19,7 +19,8 @@
 (*                         act in {"-", "=", "?", "+"}                     *)
 (*   [t |-> "par", p, m |-> "trim", side, long, w]     ${p# w} ${p## w}    *)
 (*                         side in {"#", "%"}          ${p% w} ${p%% w}    *)
-(*   p in {"x", "y"} (variables), "1", "2" (positional), "@", "*", "#", "?"*)
+(*   p in {"x", "y", "IFS"} (variables), "1", "2" (positional), "@", "*",  *)
+(*   "#", "?".  IFS is a variable like any other: ${IFS=w} assigns it.     *)
 (*                                                                         *)
 (* Shell state: [x, y : [set, v], pos : Seq(STRING), ifs : [set, v],       *)
 (*               nounset : BOOLEAN, st : STRING (value of $?)].            *)
@@ -29,7 +30,11 @@
 (*     (a sequence of fields of attributed characters; only "$@"/$@/$*     *)
 (*     make it differ from one field), threading the state for ${p=w} and  *)
 (*     stopping at the first error;                                        *)
-(*  2. field splitting of every field of the phrase (Split.tla);           *)
+(*  2. field splitting of every field of the phrase (Split.tla), with the  *)
+(*     value IFS has *after* step 1 (2.6: splitting is performed on the    *)
+(*     results of the expansions of the whole word, so an assignment to    *)
+(*     IFS made by ${IFS=w} in the same word already governs it), while    *)
+(*     "$*" joins with the IFS in force where it is expanded;              *)
 (*  3. quote removal.                                                      *)
 (* Pathname expansion is not modelled (the harness runs with `set -f`).    *)
 (***************************************************************************)
@@ -95,14 +100,18 @@ NoChars(P) == \A i \in DOMAIN P : P[i] = <<>>
 Lookup(p, st) ==
   CASE p = "x" -> st.x
     [] p = "y" -> st.y
+    [] p = "IFS" -> st.ifs
     [] p = "1" -> IF Len(st.pos) >= 1 THEN Val(st.pos[1]) ELSE Unset
     [] p = "2" -> IF Len(st.pos) >= 2 THEN Val(st.pos[2]) ELSE Unset
     [] p = "#" -> Val(ToString(Len(st.pos)))
     [] p = "?" -> Val(st.st)
 
-IsVariable(p) == p \in {"x", "y"}
+IsVariable(p) == p \in {"x", "y", "IFS"}
 IfsC(st) == [set |-> st.ifs.set, v |-> Chars(st.ifs.v)]   \* IFS in the form Split.tla uses
-Assign(p, s, st) == IF p = "x" THEN [st EXCEPT !.x = Val(s)] ELSE [st EXCEPT !.y = Val(s)]
+Assign(p, s, st) ==
+  CASE p = "x" -> [st EXCEPT !.x = Val(s)]
+    [] p = "y" -> [st EXCEPT !.y = Val(s)]
+    [] p = "IFS" -> [st EXCEPT !.ifs = Val(s)]
 
 ---------------------------------------------------------------------------
 (* Patterns of ${p#w} ${p%w}: only the fragment "literal characters, *, ?" *)
@@ -262,12 +271,12 @@ XUnit(u, st, dq, o) ==
 (* The complete expansion of one word used as a command argument.          *)
 ExpandWith(w, st, o) ==
   LET r == XUnits(w, st, FALSE, o) IN
-  IF r.err # "" THEN [k |-> r.err, f |-> <<>>, x |-> r.st.x, y |-> r.st.y, msg |-> r.msg]
+  IF r.err # "" THEN [k |-> r.err, f |-> <<>>, x |-> r.st.x, y |-> r.st.y, ifs |-> r.st.ifs, msg |-> r.msg]
   ELSE LET F == SplitFields(r.ph, IfsC(r.st))
        IN [k |-> "ok", f |-> [i \in DOMAIN F |-> Str(Plain(RemoveQuotes(F[i])))],
-           x |-> r.st.x, y |-> r.st.y, msg |-> ""]
+           x |-> r.st.x, y |-> r.st.y, ifs |-> r.st.ifs, msg |-> ""]
 
-SkipOutcome(st) == [k |-> "skip", f |-> <<>>, x |-> st.x, y |-> st.y, msg |-> ""]
+SkipOutcome(st) == [k |-> "skip", f |-> <<>>, x |-> st.x, y |-> st.y, ifs |-> st.ifs, msg |-> ""]
 
 (* Allowed outcomes (a sequence of one or two records).                    *)
 Outcomes(w, st) ==
@@ -278,11 +287,11 @@ Outcomes(w, st) ==
        ELSE IF n = 0 THEN <<a>>
        ELSE LET b == ExpandWith(w, st, TRUE) IN IF a = b THEN <<a>> ELSE <<a, b>>
 
-(* Does an observation [k, f, x, y] (k = "ok"/"err") agree with an outcome? *)
+(* Does an observation [k, f, x, y, ifs] (k = "ok"/"err") agree with an outcome? *)
 (* The kind of an error and the values of variables after an error are     *)
 (* not compared (the shell exits; POSIX fixes no diagnostics).             *)
 Agrees(obs, out) ==
-  IF out.k = "ok" THEN obs.k = "ok" /\ obs.f = out.f /\ obs.x = out.x /\ obs.y = out.y
+  IF out.k = "ok" THEN obs.k = "ok" /\ obs.f = out.f /\ obs.x = out.x /\ obs.y = out.y /\ obs.ifs = out.ifs
   ELSE obs.k = "err"
 
 ---------------------------------------------------------------------------
